@@ -1,13 +1,16 @@
 import NeumannModel.Common.Proto
 import NeumannModel.RelTx.Model
 import NeumannModel.RelTx.RaceModel
+import NeumannModel.RelTx.DdlModel
 /-
   Line-protocol driver for the relational transaction model (C09).  Stateful.
   Row ids on the wire are ENGINE ids (slab id + 1); transaction ids are the model's own
   (the harness keeps the model-id ↔ real-id table).
 
     init <lockTimeoutMs> <txTimeoutMs>          ok
-    create_table <ncols> [<nullable cols c,c|->] ok <t>
+    create_table <ncols> [<nullable cols c,c|->] ok <t>                          (under the next unused name)
+    drop_table <t>                              ok | err table_not_found | err lock_conflict
+    recreate_table <t> <ncols>                  ok | err table_exists               (create_table under the name <t>)
     values: a decimal number or N (NULL; also what an omitted nullable column is stored as)
     begin                                       ok <tx>
     commit <tx> | rollback <tx>                 ok | err <class>
@@ -36,7 +39,7 @@ def showErr : Err → String
   | .tableNotFound => "table_not_found" | .columnNotFound => "column_not_found"
   | .badInput => "bad_input" | .lockConflict => "lock_conflict"
   | .indexExists => "index_exists" | .indexNotFound => "index_not_found"
-  | .rollbackFailed => "rollback_failed"
+  | .rollbackFailed => "rollback_failed" | .tableExists => "table_exists"
 
 def showRes (bump : Nat) : Res → String
   | .ok => "ok"
@@ -118,6 +121,10 @@ def relStep (s : State) (line : String) : State × String :=
     | some n => fin 0 (step s (.createTable n [])) | none => bad
   | ["create_table", n, nl] => match n.toNat?, parseNats nl with
     | some n, some nl => fin 0 (step s (.createTable n nl)) | _, _ => bad
+  | ["drop_table", t] => match t.toNat? with
+    | some t => fin 0 (dropTable s t) | none => bad
+  | ["recreate_table", t, n] => match t.toNat?, n.toNat? with
+    | some t, some n => fin 0 (createTableAt s t n []) | _, _ => bad
   | ["begin"] => fin 0 (step s .begin)
   | ["commit", tx] => match tx.toNat? with
     | some tx => fin 0 (step s (.commit tx)) | none => bad
@@ -184,11 +191,11 @@ def relStep (s : State) (line : String) : State × String :=
 
 /-- the split statements (two halves with other statements in between; `RaceModel.lean`):
       scan_update <tx> <t> <cond> <upd>     scan <id:v.v;...> | err <class>     first half of tx_update
-      apply_update <tx> <t> <upd>           ok <n> | err lock_conflict | err storage     second half, AS THE CODE IS
-      scan_delete <tx> <t> <cond>           scan <rows> | err <class>
-      apply_delete <tx> <t>                 ok <n> | err lock_conflict
-      apply_update_fixed <tx> <t> <cond> <upd> | apply_delete_fixed <tx> <t> <cond>
-                                            second half WITH the proposed repair (rows re-read under the locks)
+      apply_update <tx> <t> <cond> <upd>    ok <n> | err <class>                second half, AS THE CODE IS
+      scan_delete <tx> <t> <cond>           scan <rows> | err <class>             (fcb86137: rows re-read under the locks)
+      apply_delete <tx> <t> <cond>          ok <n> | err <class>
+      apply_update_old <tx> <t> <upd>       ok <n> | err lock_conflict | err storage     second half BEFORE fcb86137
+      apply_delete_old <tx> <t>             ok <n> | err lock_conflict                   (not used by the harness)
     every other line goes to `relStep` -/
 def raceStep (d : DState) (line : String) : DState × String :=
   let bad := (d, "bad-op")
@@ -209,26 +216,26 @@ def raceStep (d : DState) (line : String) : DState × String :=
     | some tx, some t, some c, some u => firstHalf tx t c (some u) | _, _, _, _ => bad
   | ["scan_delete", tx, t, c] => match tx.toNat?, t.toNat?, parseCond c with
     | some tx, some t, some c => firstHalf tx t c none | _, _, _ => bad
-  | ["apply_update", tx, t, u] => match tx.toNat?, t.toNat?, parseUpd u with
+  | ["apply_update_old", tx, t, u] => match tx.toNat?, t.toNat?, parseUpd u with
     | some tx, some t, some u =>
-      (match txUpdateApplyStale d.s tx t (d.scans tx) u with
+      (match txUpdateApplyOld d.s tx t (d.scans tx) u with
         | (s', none) => ({ d with s := s' }, "err lock_conflict")
         | (s', some none) => ({ d with s := s' }, "err storage")
         | (s', some (some n)) => ({ d with s := s' }, s!"ok {n}"))
     | _, _, _ => bad
-  | ["apply_update_fixed", tx, t, c, u] => match tx.toNat?, t.toNat?, parseCond c, parseUpd u with
+  | ["apply_update", tx, t, c, u] => match tx.toNat?, t.toNat?, parseCond c, parseUpd u with
     | some tx, some t, some c, some u =>
-      let r := txUpdateApplyFixed d.s tx t c ((d.scans tx).map (·.1)) u
+      let r := txUpdateApply d.s tx t c ((d.scans tx).map (·.1)) u
       ({ d with s := r.1 }, showRes 0 r.2)
     | _, _, _, _ => bad
-  | ["apply_delete_fixed", tx, t, c] => match tx.toNat?, t.toNat?, parseCond c with
+  | ["apply_delete", tx, t, c] => match tx.toNat?, t.toNat?, parseCond c with
     | some tx, some t, some c =>
-      let r := txDeleteApplyFixed d.s tx t c ((d.scans tx).map (·.1))
+      let r := txDeleteApply d.s tx t c ((d.scans tx).map (·.1))
       ({ d with s := r.1 }, showRes 0 r.2)
     | _, _, _ => bad
-  | ["apply_delete", tx, t] => match tx.toNat?, t.toNat? with
+  | ["apply_delete_old", tx, t] => match tx.toNat?, t.toNat? with
     | some tx, some t =>
-      (match txDeleteApplyStale d.s tx t (d.scans tx) with
+      (match txDeleteApplyOld d.s tx t (d.scans tx) with
         | (s', none) => ({ d with s := s' }, "err lock_conflict")
         | (s', some n) => ({ d with s := s' }, s!"ok {n}"))
     | _, _ => bad
